@@ -310,6 +310,7 @@ structure StoreInv (st : Store) : Prop where
   wf : WF (cmds st.graph)
   heads : ∀ i, i ∈ st.heads ↔ IsTip (cmds st.graph) i
   sorted : st.heads.Pairwise (· < ·)
+  nonempty : st.graph ≠ []
 
 /-- shape of the in-flight perspective between two calls -/
 def PerspOK (t : Trx) : Prop :=
@@ -394,5 +395,548 @@ theorem chain_snoc' {base : List Nat} {cs : Graph} {c : Cmd} (h : Chain base cs)
     cases xs with
     | nil => simpa using hc
     | cons y ys => rw [List.getLast?_cons_cons] at hc; exact hc
+
+/-! ## what the transaction has accepted, and the view it works on -/
+
+def accepted (t : Trx) : List SCmd := t.written ++ inflight t
+def view (st : Store) (t : Trx) : List SCmd := st.graph ++ t.written ++ inflight t
+
+theorem view_eq (st : Store) (t : Trx) : view st t = st.graph ++ accepted t := by
+  simp [view, accepted]
+
+theorem stateOf_cons (x : SCmd) (l : List SCmd) (i : Nat) :
+    stateOf (x :: l) i = if x.cmd.id = i then some x.st else stateOf l i := by
+  simp only [stateOf, List.find?_cons]
+  by_cases h : x.cmd.id = i
+  · simp [h]
+  · have : (x.cmd.id == i) = false := by simpa using h
+    simp [this, h]
+
+theorem stateOf_append (a b : List SCmd) (i : Nat) :
+    stateOf (a ++ b) i = match stateOf a i with
+      | some s => some s
+      | none => stateOf b i := by
+  induction a with
+  | nil => simp [stateOf]
+  | cons x xs ih =>
+    simp only [List.cons_append, stateOf_cons]
+    by_cases h : x.cmd.id = i <;> simp [h, ih]
+
+theorem stateOf_mem {l : List SCmd} (hn : (ids (cmds l)).Nodup) {x : SCmd} (hx : x ∈ l) :
+    stateOf l x.cmd.id = some x.st := by
+  induction l with
+  | nil => simp at hx
+  | cons y ys ih =>
+    rw [stateOf_cons]
+    have hn' : y.cmd.id ∉ ids (cmds ys) ∧ (ids (cmds ys)).Nodup := by
+      simpa [ids, cmds] using hn
+    rcases List.mem_cons.mp hx with rfl | hx
+    · simp
+    · have : y.cmd.id ≠ x.cmd.id := by
+        intro e
+        apply hn'.1
+        rw [e]
+        simp only [ids, cmds, List.map_map, List.mem_map]
+        exact ⟨x, hx, rfl⟩
+      simp [this, ih hn'.2 hx]
+
+theorem storedState_eq (st : Store) (t : Trx) (i : Nat) :
+    storedState st t i = stateOf (st.graph ++ t.written) i := by
+  rw [stateOf_append]; rfl
+
+theorem restore_heads {hs : List Nat} (h : hs.Pairwise (· < ·)) (p : Nat) :
+    (if hs.contains p then [p] else []).foldl hsPush (hs.erase p) = hs := by
+  apply sorted_ext (foldl_hsPush_pairwise _ _ (erase_sorted p h)) h
+  intro a
+  rw [mem_foldl_hsPush, (sorted_nodup h).mem_erase_iff]
+  by_cases hp : p ∈ hs
+  · simp [hp]; grind
+  · have : hs.contains p = false := by simpa using hp
+    simp [this]; grind
+
+theorem restore_heads2 {hs : List Nat} (h : hs.Pairwise (· < ·)) (l r : Nat) (a : Nat) :
+    (a ∈ (hs.erase l).erase r ∨ a ∈ [l, r].filter (hs.contains ·)) ↔ a ∈ hs := by
+  rw [(sorted_nodup (erase_sorted l h)).mem_erase_iff, (sorted_nodup h).mem_erase_iff]
+  simp only [List.mem_filter, List.mem_cons, List.not_mem_nil, or_false, List.contains_iff_mem]
+  grind
+
+theorem TrxInv.view_flush {st : Store} {t : Trx} (h : TrxInv st t) :
+    view st (flushT t) = view st t ∧ accepted (flushT t) = accepted t := by
+  obtain ⟨_, hp, _, _, hw, _⟩ := flushT_inv h
+  simp [view, accepted, inflight, hp, hw, List.append_assoc]
+
+theorem TrxInv.nodup {st : Store} {t : Trx} (h : TrxInv st t) : (ids (cmds (view st t))).Nodup :=
+  h.wf.nodup
+
+/-- `add_single` on a transaction satisfying the invariant, for a command `c` whose only parent
+is `p` and whose id is not in the view: the invariant is kept and the outcome is decided by the
+fact state stored at `p` — missing → `NoSuchParent`; rule accepts → `c` is appended to the accepted
+commands with the rule's facts and the sink window is committed; rule rejects → nothing but a
+possible `flush` happened and the sink window is rolled back. -/
+theorem addSingle_spec {st : Store} {t : Trx} (sink : List SinkEv) {c : Cmd} {p : Nat}
+    (h : TrxInv st t) (hc : c.parents = [p]) (hfresh : c.id ∉ ids (cmds (view st t))) :
+    TrxInv st (addSingle st t sink c p).1 ∧ (addSingle st t sink c p).1.offset = t.offset ∧
+    (match stateOf (view st t) p with
+     | none => (addSingle st t sink c p) = (flushT t, sink, some .noSuchParent)
+     | some s =>
+       if (rule c s).2.1 = true then
+         (addSingle st t sink c p).2.2 = none ∧
+         accepted (addSingle st t sink c p).1 = accepted t ++ [⟨c, (rule c s).1⟩] ∧
+         (addSingle st t sink c p).2.1 = sink ++ ([SinkEv.begin] ++ consumes c.id (rule c s).2.2) ++ [SinkEv.commit]
+       else
+         (addSingle st t sink c p).2.2 = some .rejected ∧
+         ((addSingle st t sink c p).1 = t ∨ (addSingle st t sink c p).1 = flushT t) ∧
+         (addSingle st t sink c p).2.1 = sink ++ ([SinkEv.begin] ++ consumes c.id (rule c s).2.2) ++ [SinkEv.rollback]) := by
+  have hpo := h.persp
+  unfold PerspOK at hpo
+  by_cases hph : t.phead = some p
+  · -- the command extends the in-flight perspective
+    cases hpe : t.persp with
+    | none => rw [hpe] at hpo; rw [hpo.1] at hph; cases hph
+    | some ps =>
+      rw [hpe] at hpo
+      obtain ⟨last, hl, hph', hch, hf, hpa, hpb⟩ := hpo
+      have hlp : last.cmd.id = p := by rw [hph'] at hph; exact Option.some.inj hph
+      have hadd : addSingle st t sink c p = evalSingle t ps false sink c := by
+        simp [addSingle, hph, hpe]
+      rw [hadd]
+      obtain ⟨ys, hys⟩ := List.getLast?_eq_some_iff.mp hl
+      have hview : view st t = st.graph ++ t.written ++ ps.cmds := by simp [view, inflight, hpe]
+      have hst : stateOf (view st t) p = some last.st := by
+        rw [← hlp]
+        apply stateOf_mem h.nodup
+        rw [hview, hys]; simp
+      rw [hst]
+      simp only
+      rw [← hf]
+      unfold evalSingle
+      by_cases hr : (rule c ps.facts).2.1 = true
+      · simp only [hr, if_true]
+        refine ⟨⟨?_, ?_, h.sorted, ?_⟩, ?_⟩
+        rotate_left 3
+        · simp [accepted, inflight, hpe, List.append_assoc]
+        · -- well-formedness of the extended view
+          have : cmds (st.graph ++ t.written ++ (ps.cmds ++ [⟨c, (rule c ps.facts).1⟩])) = cmds (view st t) ++ [c] := by
+            rw [hview]; simp
+          simp only [inflight]
+          rw [this]
+          refine WF.snoc h.wf hfresh ?_ (by simp [hc]) (by simp [hc])
+          intro q hq
+          rw [hc] at hq
+          have : q = last.cmd.id := by rw [hlp]; simpa using hq
+          subst this
+          rw [hview, hys]
+          simp [ids, cmds]
+        · exact h.heads
+        · simp only [PerspOK]
+          refine ⟨⟨c, (rule c ps.facts).1⟩, by simp, rfl, ?_, rfl, hpa, hpb⟩
+          simp only [cmds_append, cmds_cons, cmds_nil]
+          apply chain_snoc' hch
+          rw [getLast?_cmds hl, hc]
+          simp [hlp]
+      · simp only [hr]
+        refine ⟨h, ?_⟩
+        simp [List.append_assoc]
+  · -- a new perspective is opened on `p`
+    obtain ⟨h1, hp1, hph1, hpb1, hw1, ho1⟩ := flushT_inv h
+    obtain ⟨hv1, ha1⟩ := h.view_flush
+    have hview1 : view st (flushT t) = st.graph ++ (flushT t).written := by simp [view, inflight, hp1]
+    have hss : storedState st (flushT t) p = stateOf (view st t) p := by
+      rw [storedState_eq, ← hview1, hv1]
+    cases hs : stateOf (view st t) p with
+    | none =>
+      have hadd : addSingle st t sink c p = (flushT t, sink, some .noSuchParent) := by
+        simp [addSingle, hph, h.persp.flushErr, hss, hs]
+      rw [hadd]
+      exact ⟨h1, ho1, rfl⟩
+    | some s =>
+      have hadd : addSingle st t sink c p =
+          evalSingle { flushT t with persp := some { prior := [p], cmds := [], facts := s }, phead := some p, heads := (flushT t).heads.erase p, pbase := if (flushT t).heads.contains p then [p] else [] }
+            { prior := [p], cmds := [], facts := s } true sink c := by
+        simp [addSingle, hph, h.persp.flushErr, hss, hs]
+      rw [hadd]
+      unfold evalSingle
+      simp only
+      have hpin : p ∈ ids (cmds (st.graph ++ (flushT t).written)) := by
+        rw [← hview1, hv1]
+        exact stateOf_some_mem hs
+      by_cases hr : (rule c s).2.1 = true
+      · simp only [hr, if_true]
+        refine ⟨⟨?_, ?_, erase_sorted p h1.sorted, ?_⟩, ho1, ?_⟩
+        rotate_left 3
+        · simp [accepted, inflight, hw1, List.append_assoc]
+        · simp only [inflight, List.nil_append]
+          have : cmds (st.graph ++ (flushT t).written ++ [⟨c, (rule c s).1⟩]) = cmds (view st t) ++ [c] := by
+            rw [← hv1, hview1]; simp
+          rw [this]
+          refine WF.snoc h.wf hfresh ?_ (by simp [hc]) (by simp [hc])
+          intro q hq
+          rw [hc] at hq
+          have : q = p := by simpa using hq
+          subst this
+          rw [← hv1, hview1]; exact hpin
+        · intro i
+          simp only
+          rw [← h1.heads i, hpb1, (sorted_nodup h1.sorted).mem_erase_iff]
+          by_cases hp : p ∈ (flushT t).heads
+          · simp [hp]; grind
+          · have : (flushT t).heads.contains p = false := by simpa using hp
+            simp [this]; grind
+        · simp only [PerspOK, List.nil_append]
+          refine ⟨⟨c, (rule c s).1⟩, by simp, rfl, by simp [Chain, hc], rfl, ?_, ?_⟩
+          · intro i hi
+            by_cases hp : (flushT t).heads.contains p = true <;> simp_all
+          · intro i hi
+            have : i = p := by simpa using hi
+            subst this
+            rw [(sorted_nodup h1.sorted).mem_erase_iff]
+            simp
+      · simp only [hr]
+        have hback : ({ flushT t with persp := none, phead := none, heads := (if (flushT t).heads.contains p then [p] else []).foldl hsPush ((flushT t).heads.erase p), pbase := [] } : Trx) = flushT t := by
+          rw [restore_heads h1.sorted]
+          cases hft : flushT t
+          rw [hft] at hp1 hph1 hpb1
+          simp only at hp1 hph1 hpb1
+          subst hp1 hph1 hpb1
+          rfl
+        simp only [Bool.false_eq_true, if_false, if_true]
+        rw [hback]
+        refine ⟨h1, ho1, ?_⟩
+        simp [List.append_assoc]
+
+theorem viewOf_eq {st : Store} {t : Trx} (hn : (ids (cmds (st.graph ++ t.written))).Nodup) :
+    viewOf st t = st.graph ++ t.written := by
+  unfold viewOf
+  congr 1
+  rw [List.filter_eq_self]
+  intro x hx
+  simp only [Bool.not_eq_eq_eq_not, Bool.not_true, hasId_false_iff]
+  intro hm
+  rw [cmds_append, ids_append] at hn
+  have := (List.nodup_append.mp hn).2.2 x.cmd.id hm x.cmd.id (by
+    simp only [ids, cmds, List.map_map, List.mem_map]; exact ⟨x, hx, rfl⟩)
+  exact this rfl
+
+/-- `add_merge` on a transaction satisfying the invariant, for a merge command `c` of `l` and `r`
+whose id is not in the view -/
+theorem addMerge_spec {st : Store} {t : Trx} (sink : List SinkEv) {c : Cmd} {l r : Nat}
+    (h : TrxInv st t) (hc : c.parents = [l, r]) (hfresh : c.id ∉ ids (cmds (view st t))) :
+    TrxInv st (addMerge st t sink c l r).1 ∧ (addMerge st t sink c l r).1.offset = t.offset ∧
+    (if l ∉ ids (cmds (view st t)) ∨ r ∉ ids (cmds (view st t)) then
+       addMerge st t sink c l r = (flushT t, sink, some .noSuchParent)
+     else if l = r then addMerge st t sink c l r = (flushT t, sink, some .malformed)
+     else match braidFacts (view st t) [l, r] with
+       | .error e => addMerge st t sink c l r = (flushT t, sink, some e)
+       | .ok (s, fx) =>
+         (addMerge st t sink c l r).2.2 = none ∧
+         accepted (addMerge st t sink c l r).1 = accepted t ++ [⟨c, s⟩] ∧
+         (addMerge st t sink c l r).2.1 = sink ++ braidEvs fx) := by
+  obtain ⟨h1, hp1, hph1, hpb1, hw1, ho1⟩ := flushT_inv h
+  obtain ⟨hv1, ha1⟩ := h.view_flush
+  have hview1 : view st (flushT t) = st.graph ++ (flushT t).written := by simp [view, inflight, hp1]
+  have hnd : (ids (cmds (st.graph ++ (flushT t).written))).Nodup := by
+    rw [← hview1, hv1]; exact h.nodup
+  have hvo : viewOf st (flushT t) = view st t := by rw [viewOf_eq hnd, ← hview1, hv1]
+  have hloc : ∀ i, locate st (flushT t) i = true ↔ i ∈ ids (cmds (view st t)) := by
+    intro i; rw [locate_iff, ← hview1, hv1]
+  have hfe := h.persp.flushErr
+  by_cases hl : l ∈ ids (cmds (view st t))
+  case neg =>
+    have : locate st (flushT t) l = false := by
+      cases hb : locate st (flushT t) l with
+      | false => rfl
+      | true => exact absurd ((hloc l).mp hb) hl
+    have hadd : addMerge st t sink c l r = (flushT t, sink, some .noSuchParent) := by
+      simp [addMerge, hfe, this]
+    rw [hadd]
+    refine ⟨h1, ho1, ?_⟩
+    simp [hl]
+  by_cases hr : r ∈ ids (cmds (view st t))
+  case neg =>
+    have h1l : locate st (flushT t) l = true := (hloc l).mpr hl
+    have : locate st (flushT t) r = false := by
+      cases hb : locate st (flushT t) r with
+      | false => rfl
+      | true => exact absurd ((hloc r).mp hb) hr
+    have hadd : addMerge st t sink c l r = (flushT t, sink, some .noSuchParent) := by
+      simp [addMerge, hfe, this, h1l]
+    rw [hadd]
+    refine ⟨h1, ho1, ?_⟩
+    simp [hr]
+  have h1l : locate st (flushT t) l = true := (hloc l).mpr hl
+  have h1r : locate st (flushT t) r = true := (hloc r).mpr hr
+  by_cases hlr : l = r
+  · have hadd : addMerge st t sink c l r = (flushT t, sink, some .malformed) := by
+      simp [addMerge, hfe, h1r, hlr]
+    rw [hadd]
+    refine ⟨h1, ho1, ?_⟩
+    simp [hl, hr, hlr]
+  simp only [hl, hr, not_true_eq_false, or_self, if_false, hlr]
+  cases hb : braidFacts (view st t) [l, r] with
+  | error e =>
+    have hadd : addMerge st t sink c l r = (flushT t, sink, some e) := by
+      simp [addMerge, hfe, h1l, h1r, hlr, hvo, hb]
+    rw [hadd]
+    exact ⟨h1, ho1, rfl⟩
+  | ok sf =>
+    obtain ⟨s, fx⟩ := sf
+    have hadd : addMerge st t sink c l r =
+        ({ flushT t with persp := some { prior := [l, r], cmds := [⟨c, s⟩], facts := s }, phead := some c.id, heads := ((flushT t).heads.erase l).erase r, pbase := [l, r].filter ((flushT t).heads.contains ·) }, sink ++ braidEvs fx, none) := by
+      simp [addMerge, hfe, h1l, h1r, hlr, hvo, hb]
+    rw [hadd]
+    refine ⟨⟨?_, ?_, erase_sorted r (erase_sorted l h1.sorted), ?_⟩, ho1, rfl, ?_, rfl⟩
+    · simp only [inflight]
+      have : cmds (st.graph ++ (flushT t).written ++ [⟨c, s⟩]) = cmds (view st t) ++ [c] := by
+        rw [← hv1, hview1]; simp
+      rw [this]
+      refine WF.snoc h.wf hfresh ?_ (by simp [hc]) (by simp [hc, hlr])
+      intro q hq
+      rw [hc] at hq
+      simp only [List.mem_cons, List.not_mem_nil, or_false] at hq
+      rcases hq with rfl | rfl
+      · exact hl
+      · exact hr
+    · intro i
+      simp only
+      rw [restore_heads2 h1.sorted, ← h1.heads i, hpb1]
+      simp
+    · simp only [PerspOK]
+      refine ⟨⟨c, s⟩, by simp, rfl, by simp [Chain, hc], rfl, ?_, ?_⟩
+      · intro i hi
+        simp only [List.mem_filter] at hi
+        exact hi.1
+      · intro i hi
+        rw [(sorted_nodup (erase_sorted l h1.sorted)).mem_erase_iff, (sorted_nodup h1.sorted).mem_erase_iff]
+        simp only [List.mem_cons, List.not_mem_nil, or_false] at hi
+        grind
+    · simp [accepted, inflight, hw1, List.append_assoc]
+
+/-! ## reference semantics of delivery (no perspectives, no tips, no flushes) -/
+
+/-- deliver one command to a graph of stored commands: duplicates and a repeated init are
+skipped; a command is appended — with the facts its rule (or, for a merge, the braid) produces
+on the state stored at its parent — iff its parents are present and the rule accepts -/
+def refAdd (gid : Nat) (g : List SCmd) (i : In) : List SCmd × Option Err :=
+  if hasId g i.cmd.id then (g, none)
+  else
+    match i.cmd.parents with
+    | [] => if i.cmd.id = gid then (g, none) else (g, some .initError)
+    | [p] =>
+      match stateOf g p with
+      | none => (g, some .noSuchParent)
+      | some s =>
+        if (rule i.cmd s).2.1 = true then (g ++ [⟨i.cmd, (rule i.cmd s).1⟩], none) else (g, some .rejected)
+    | [l, r] =>
+      if l ∉ ids (cmds g) ∨ r ∉ ids (cmds g) then (g, some .noSuchParent)
+      else if l = r then (g, some .malformed)
+      else
+        match braidFacts g [l, r] with
+        | .error e => (g, some e)
+        | .ok (s, _) => (g ++ [⟨i.cmd, s⟩], none)
+    | _ => (g, some .malformed)
+
+/-- deliver a batch: stop at the first refused command; count the commands that were appended -/
+def refBatch (gid : Nat) : List SCmd → List In → Nat → List SCmd × Except Err Nat
+  | g, [], n => (g, .ok n)
+  | g, i :: rest, n =>
+    match refAdd gid g i with
+    | (g', none) => refBatch gid g' rest (n + (g'.length - g.length))
+    | (g', some e) => (g', .error e)
+
+theorem dup_iff {st : Store} {t : Trx} (i : Nat) :
+    (perspIncludes t i || locate st t i) = hasId (view st t) i := by
+  simp only [perspIncludes, locate, view, inflight, hasId, List.any_append]
+  cases t.persp <;> simp [Bool.or_comm]
+
+/-- the loop of `add_commands` refines the reference delivery of the batch to the view -/
+theorem addLoop_refines (gid : Nat) {st : Store} (batch : List In) :
+    ∀ {t : Trx} (sink : List SinkEv) (n : Nat), TrxInv st t →
+    TrxInv st (addLoop gid st t sink batch n).1 ∧ (addLoop gid st t sink batch n).1.offset = t.offset ∧
+    view st (addLoop gid st t sink batch n).1 = (refBatch gid (view st t) batch n).1 ∧
+    (addLoop gid st t sink batch n).2.2 = (refBatch gid (view st t) batch n).2 := by
+  induction batch with
+  | nil => intro t sink n h; exact ⟨h, rfl, rfl, rfl⟩
+  | cons i rest ih =>
+    intro t sink n h
+    unfold addLoop refBatch refAdd
+    rw [dup_iff]
+    cases hd : hasId (view st t) i.cmd.id with
+    | true => simpa using ih sink n h
+    | false =>
+      have hfresh : i.cmd.id ∉ ids (cmds (view st t)) := hasId_false_iff.mp hd
+      simp only [Bool.false_eq_true, if_false]
+      match hpar : i.cmd.parents with
+      | [] =>
+        by_cases hg : i.cmd.id = gid
+        · simpa [hg] using ih sink n h
+        · simp only [hg, if_false]; exact ⟨h, (by first | rfl | trivial), (by first | rfl | trivial), (by first | rfl | trivial)⟩
+      | [p] =>
+        obtain ⟨hinv, hoff, hsp⟩ := addSingle_spec sink h hpar hfresh
+        simp only
+        cases hs : stateOf (view st t) p with
+        | none =>
+          rw [hs] at hsp
+          simp only at hsp
+          rw [hsp]
+          simp only
+          exact ⟨(flushT_inv h).1, (flushT_inv h).2.2.2.2.2, h.view_flush.1, (by first | rfl | trivial)⟩
+        | some s =>
+          rw [hs] at hsp
+          simp only at hsp
+          by_cases hr : (rule i.cmd s).2.1 = true
+          · simp only [hr, if_true] at hsp ⊢
+            obtain ⟨he, hacc, _⟩ := hsp
+            rcases hres : addSingle st t sink i.cmd p with ⟨t', sink', e⟩
+            rw [hres] at he hacc hinv hoff
+            simp only at he hacc hinv hoff
+            subst he
+            simp only
+            have hv' : view st t' = view st t ++ [⟨i.cmd, (rule i.cmd s).1⟩] := by
+              rw [view_eq, hacc, view_eq]; simp
+            have := ih sink' (n + 1) hinv
+            rw [hv'] at this
+            refine ⟨this.1, by rw [this.2.1, hoff], ?_, ?_⟩
+            · rw [this.2.2.1]; simp
+            · rw [this.2.2.2]; simp
+          · simp only [hr] at hsp ⊢
+            obtain ⟨he, hcase, _⟩ := hsp
+            rcases hres : addSingle st t sink i.cmd p with ⟨t', sink', e⟩
+            rw [hres] at he hcase hinv hoff
+            simp only at he hcase hinv hoff
+            subst he
+            simp only [Bool.false_eq_true, if_false]
+            refine ⟨hinv, hoff, ?_, (by first | rfl | trivial)⟩
+            rcases hcase with rfl | rfl
+            · rfl
+            · exact h.view_flush.1
+      | [l, r] =>
+        obtain ⟨hinv, hoff, hsp⟩ := addMerge_spec sink h hpar hfresh
+        simp only
+        by_cases hlr : l ∉ ids (cmds (view st t)) ∨ r ∉ ids (cmds (view st t))
+        · simp only [hlr, if_true] at hsp ⊢
+          rw [hsp]
+          exact ⟨(flushT_inv h).1, (flushT_inv h).2.2.2.2.2, h.view_flush.1, rfl⟩
+        · simp only [hlr, if_false] at hsp ⊢
+          by_cases heq : l = r
+          · simp only [heq, if_true] at hsp ⊢
+            rw [hsp]
+            exact ⟨(flushT_inv h).1, (flushT_inv h).2.2.2.2.2, h.view_flush.1, rfl⟩
+          · simp only [heq, if_false] at hsp ⊢
+            cases hb : braidFacts (view st t) [l, r] with
+            | error e =>
+              rw [hb] at hsp
+              simp only at hsp
+              rw [hsp]
+              exact ⟨(flushT_inv h).1, (flushT_inv h).2.2.2.2.2, h.view_flush.1, rfl⟩
+            | ok sf =>
+              obtain ⟨s, fx⟩ := sf
+              rw [hb] at hsp
+              simp only at hsp
+              obtain ⟨he, hacc, _⟩ := hsp
+              rcases hres : addMerge st t sink i.cmd l r with ⟨t', sink', e⟩
+              rw [hres] at he hacc hinv hoff
+              simp only at he hacc hinv hoff
+              subst he
+              simp only
+              have hv' : view st t' = view st t ++ [⟨i.cmd, s⟩] := by
+                rw [view_eq, hacc, view_eq]; simp
+              have := ih sink' (n + 1) hinv
+              rw [hv'] at this
+              refine ⟨this.1, by rw [this.2.1, hoff], ?_, ?_⟩
+              · rw [this.2.2.1]; simp
+              · rw [this.2.2.2]; simp
+      | _ :: _ :: _ :: _ => exact ⟨h, rfl, rfl, rfl⟩
+
+/-! ## `original_heads_offset` is written once -/
+
+theorem flushT_offset (t : Trx) : (flushT t).offset = t.offset := by
+  unfold flushT; split
+  · rfl
+  · split <;> rfl
+
+theorem evalSingle_offset (t : Trx) (ps : Persp) (f : Bool) (sink : List SinkEv) (c : Cmd) :
+    (evalSingle t ps f sink c).1.offset = t.offset := by
+  unfold evalSingle
+  simp only
+  split
+  · rfl
+  · split <;> rfl
+
+theorem addSingle_offset (st : Store) (t : Trx) (sink : List SinkEv) (c : Cmd) (p : Nat) :
+    (addSingle st t sink c p).1.offset = t.offset := by
+  unfold addSingle
+  split
+  · split
+    · rfl
+    · exact evalSingle_offset _ _ _ _ _
+  · split
+    · exact flushT_offset t
+    · simp only
+      split
+      · exact flushT_offset t
+      · rw [evalSingle_offset]; exact flushT_offset t
+
+theorem addMerge_offset (st : Store) (t : Trx) (sink : List SinkEv) (c : Cmd) (l r : Nat) :
+    (addMerge st t sink c l r).1.offset = t.offset := by
+  unfold addMerge
+  split
+  · exact flushT_offset t
+  · simp only
+    split
+    · exact flushT_offset t
+    · split
+      · exact flushT_offset t
+      · split
+        · exact flushT_offset t
+        · split
+          · exact flushT_offset t
+          · exact flushT_offset t
+
+theorem addLoop_offset (gid : Nat) (st : Store) (batch : List In) :
+    ∀ (t : Trx) (sink : List SinkEv) (n : Nat), (addLoop gid st t sink batch n).1.offset = t.offset := by
+  induction batch with
+  | nil => intro t sink n; rfl
+  | cons i rest ih =>
+    intro t sink n
+    unfold addLoop
+    split
+    · exact ih _ _ _
+    · split
+      · split
+        · exact ih _ _ _
+        · rfl
+      · rename_i p _
+        have := addSingle_offset st t sink i.cmd p
+        split
+        · rename_i t' sink' heq
+          rw [ih]; rw [heq] at this; exact this
+        · rename_i t' sink' e heq
+          rw [heq] at this; exact this
+      · rename_i l r _
+        have := addMerge_offset st t sink i.cmd l r
+        split
+        · rename_i t' sink' heq
+          rw [ih]; rw [heq] at this; exact this
+        · rename_i t' sink' e heq
+          rw [heq] at this; exact this
+      · rfl
+
+/-! ## first use of a transaction -/
+
+theorem snapshot_inv {st : Store} (hs : StoreInv st) :
+    TrxInv st (snapshot st {}) ∧ (snapshot st {}).offset = some st.stamp ∧ view st (snapshot st {}) = st.graph := by
+  have hh : st.heads.foldl hsPush [] = st.heads := by
+    simpa using foldl_hsPush_sorted [] st.heads (by simpa using hs.sorted)
+  have : snapshot st {} = { heads := st.heads, offset := some st.stamp } := by
+    simp [snapshot, hh]
+  rw [this]
+  refine ⟨⟨?_, ?_, hs.sorted, ?_⟩, rfl, ?_⟩
+  · simpa [inflight] using hs.wf
+  · intro i; simpa using hs.heads i
+  · simp [PerspOK]
+  · simp [view, inflight]
+
+theorem snapshot_some {st : Store} {t : Trx} {o : Nat} (h : t.offset = some o) : snapshot st t = t := by
+  simp [snapshot, h]
 
 end AranyaV.Trx
